@@ -77,7 +77,7 @@ def _tlapm(module, cwd, timeout=2400):
     gigabytes of memory) are killed with the whole group when tlapm is done"""
     import signal
 
-    proc = subprocess.Popen(["tlapm", "--cleanfp", module + ".tla"], cwd=cwd, stdout=subprocess.PIPE, stderr=subprocess.STDOUT, text=True, start_new_session=True)
+    proc = subprocess.Popen(["tlapm", "--cleanfp", "--stretch", "4", module + ".tla"], cwd=cwd, stdout=subprocess.PIPE, stderr=subprocess.STDOUT, text=True, start_new_session=True)
     try:
         out, _ = proc.communicate(timeout=timeout)
     except subprocess.TimeoutExpired:
